@@ -15,7 +15,7 @@ import ufl.classes as C
 from ufl.algorithms.apply_geometry_lowering import GeometryLoweringApplier, apply_geometry_lowering
 
 from ufv import num as N
-from ufv.core import proved, undecided, violated
+from ufv.core import crash_text, deliberate, proved, undecided, violated
 from ufv.den import World, den, leibniz_det, _cofactor
 from ufv.geom import FACET_CELL, REF_EDGES, TDIM, CellModel, facet_vertices, fact
 from ufv.opq import mesh
@@ -75,6 +75,8 @@ def build(run):
             try:
                 r = lower(q)
             except ValueError as ex:
+                if not deliberate(ex):
+                    return violated(f"crash instead of a result or a refusal: {crash_text(ex)}", reproduced=True, backend="exec")
                 return proved("refused", sample=f"{tag}: lowering refuses: {ex}")
             if r is q and not isinstance(q, (C.SpatialCoordinate,)):
                 return undecided(f"{tag}: quantity was not lowered")
